@@ -5,7 +5,7 @@ from spec import c07 as S
 from checks.nskel import SKELETONS
 
 BOUNDS = {
-    "quick": "15 shared URL skeletons with holes of length 0..1 (0..2 for host / query-key / redirect / no-scheme holes) + 5 host skeletons with holes of length 0..2, over all code points; options normalize_amp / strip_suffix / suffix_aware / infer_redirection in {F,T}",
+    "quick": "18 shared URL skeletons with holes of length 0..1 (0..2 for host / query-key / redirect / no-scheme holes) + 5 host skeletons with holes of length 0..2, over all code points; options normalize_amp / strip_suffix / suffix_aware / infer_redirection in {F,T}",
     "thorough": "holes of length 0..3 (host skeletons 0..4)",
 }
 STUBS = ["see C01"]
@@ -33,7 +33,7 @@ def hosts(st, i, n, flag):
     run_prop(st, "fingerprinted_hostname_of_host", S.fingerprinted_hostname_of_host, h, not flag)
 
 
-N2 = ("host-prefix", "host-mid", "host-suffix", "query-key", "redirect", "no-scheme")
+N2 = ("path-escape-index", "path-escape-amp", "youtube-lang", "host-prefix", "host-mid", "host-suffix", "query-key", "redirect", "no-scheme")
 
 
 def items(tier):
